@@ -720,7 +720,9 @@ def check_c19(out, tier):
         cfg["spelling"] = rnd.choice(["full", "bracket", "prefixed"])
         cfg["nsDict"] = gen.NSDICT
         c = gen.case("c19c%d" % i, T, **cfg)
-        c["targetsFile"] = True
+        c["targetsFile"] = i % 3 != 2
+        if i % 2 == 1:            # a class named twice, spelled differently: the same set of targets, in the order of first mention
+            c["targetsTwice"] = rnd.sample(cfg["targets"], rnd.randint(1, 2))
         c["endpoint"] = i % 4 != 3
         cases.append(c)
     for i in range(8 * k):        # a list of files / of zip archives, one class per part: the parts are read in list order
